@@ -8,5 +8,6 @@ for p in "$@"; do
   out=$(BT_REPO=$D timeout 900 bin/check $p 2>&1); rc=$?
   echo "$ID vs $p: rc=$rc :: $(echo "$out" | grep -v KNOWN | grep 'violation found' | head -1 | cut -c1-300)"
   echo "   $(echo "$out" | grep -v KNOWN | tail -1 | cut -c1-200)"
+  rm -f /verif/replays/$p-*.json
 done
-rm -rf $D; rm -f /verif/replays/*.json
+rm -rf $D
